@@ -632,6 +632,18 @@ def main(chk: Check):
         c = dict(fam=fam, kind="single_instance", parts=13, edges=1, cpb=2, upi=fam != "convnext", mid=True, pos=1,
                  float_rate=False, **extra)
         cases.append((c, [(2 * real_max_stride(c),) * 2], 1, ["suite_like"]))
+    # regions a seeded change can break in isolation: always covered, not left to the random stream
+    for rate in ("2", "3/2"):  # UNet without middle block x transposed-conv up-sampling (ConvTranspose2d channels)
+        c = dict(fam="unet", kind="single_instance", parts=3, edges=1, cpb=2, upi=False, mid=False, rate=rate,
+                 filters=8, variant="", float_rate=False, ms=16, stem=None, bos=2, hos=4, pos=4)
+        cases.append((c, [(32, 16)], 1, ["fixed_region:no_middle_x_transpose"]))
+    # skeleton with a limb listed in both directions and an edge listed twice: 2 x len(edges) PAF channels
+    c = dict(fam="unet", kind="bottomup", parts=4, edges=5, part_ids=[0, 1, 2, 3],
+             edge_list=[[0, 1], [1, 2], [2, 1], [2, 3], [1, 2]], cpb=2, upi=True, mid=True, rate="2", filters=8,
+             variant="", float_rate=False, ms=16, stem=None, bos=2, hos=2, pos=4)
+    cases.append((c, [(32, 48)], 1, ["fixed_region:duplicate_edges"]))
+    c = dict(c, kind="single_instance", part_ids=[0, 1, 1, 0, 2])  # repeated part names
+    cases.append((c, [(16, 16)], 2, ["fixed_region:repeated_parts"]))
     n_rand = chk.n(170, 1200)
     for i in range(n_rand):
         c = gen_cfg(rng, small=not (chk.thorough or i % 40 == 0))
